@@ -250,8 +250,43 @@ def _make_f(case, fc, n_in, theta):
 
 
 def make_arrays(case):
-    """the batch as plain nested lists of Fractions: {'inside': rows, 'border': rows|None}.
-    source 'hand': taken from the case; source 'gen': drawn from the real generator, snapped to halves."""
+    """the batch as plain nested lists of Fractions: {'inside': rows, 'border': rows|None, 'obs': …}.
+    source 'hand': taken from the case; source 'gen': drawn from the real generator, snapped to halves.
+    Observations: taken from the case, or drawn by the real `DataGeneratorObservations` from the case's table."""
+    arrays = _make_arrays_points(case)
+    o = case.get("obs")
+    if o:
+        ins = [[F(x) for x in r] for r in o["ins"]]
+        vals = [[F(x) for x in r] for r in o["vals"]]
+        ths = None if o.get("observed_theta") is None else [F(x) for x in o["observed_theta"]]
+        if o.get("loader"):
+            import jax
+            import jax.numpy as jnp
+            import numpy as np
+            from jinns.data._DataGenerators import DataGeneratorObservations
+
+            fl = lambda a: jnp.asarray([[float(x) for x in r] for r in a], dtype=jnp.float64)
+            pin, val = fl(ins), fl(vals)
+            if o.get("ins_1d") and pin.shape[1] == 1:
+                pin = pin[:, 0]
+            if o.get("vals_1d") and val.shape[1] == 1:
+                val = val[:, 0]
+            eqp = {}
+            if ths is not None:
+                th = jnp.asarray([float(x) for x in ths], dtype=jnp.float64)
+                eqp["theta"] = th if o.get("theta_1d") else th[:, None]
+            g = DataGeneratorObservations(jax.random.PRNGKey(o["loader"]["seed"]), o["loader"]["n"], pin, val, eqp)
+            for _ in range(o["loader"].get("draws", 1)):
+                g, od = g.get_batch()
+            rec = lambda a: [[Fr(float(x)) for x in r] for r in np.asarray(a).reshape(len(a), -1)]
+            ins, vals = rec(od["pinn_in"]), rec(od["val"])
+            ths = None if ths is None else [r[0] for r in rec(od["eq_params"]["theta"])]
+            arrays["_obs_dict"] = od
+        arrays["obs"] = {"ins": ins, "vals": vals, "thetas": ths}
+    return arrays
+
+
+def _make_arrays_points(case):
     b = case["batch"]
     if b["source"] == "hand":
         return {"inside": [[F(x) for x in r] for r in b["inside"]],
@@ -330,17 +365,21 @@ def build(case, arrays=None):
     obs_dict = None
     if case.get("obs"):
         o = case["obs"]
-        pin = fl(o["ins"])
-        if kind == "ode" and o.get("ins_1d"):
-            pin = pin[:, 0]
-        val = fl(o["vals"])
-        if o.get("vals_1d"):
-            val = val[:, 0]
-        eqp = {}
-        if o.get("observed_theta") is not None:
-            th = jnp.asarray([float(F(x)) for x in o["observed_theta"]], dtype=jnp.float64)
-            eqp["theta"] = th if o.get("theta_1d") else th[:, None]
-        obs_dict = {"pinn_in": pin, "val": val, "eq_params": eqp}
+        if "_obs_dict" in arrays:
+            obs_dict = arrays["_obs_dict"]
+        else:
+            ao = arrays["obs"]
+            pin = fl(ao["ins"])
+            if kind == "ode" and o.get("ins_1d"):
+                pin = pin[:, 0]
+            val = fl(ao["vals"])
+            if o.get("vals_1d"):
+                val = val[:, 0]
+            eqp = {}
+            if ao["thetas"] is not None:
+                th = jnp.asarray([float(F(x)) for x in ao["thetas"]], dtype=jnp.float64)
+                eqp["theta"] = th if o.get("theta_1d") else th[:, None]
+            obs_dict = {"pinn_in": pin, "val": val, "eq_params": eqp}
 
     if kind == "ode":
         ic = None
@@ -498,20 +537,19 @@ def lean_case(case, arrays):
             "jtab": [[qrow(p), [qrow(row[sp:]) for row in ex.jac(p)]] for p in pts_all],
         }
     if case.get("obs"):
-        o = case["obs"]
-        ins = [[F(x) for x in r] for r in o["ins"]]
+        o, ao = case["obs"], arrays["obs"]
+        ins = ao["ins"]
         n = len(ins)
         caller = [["theta", q(ex.theta)]]
         observed = []
         thetas = [ex.theta]
-        if o.get("observed_theta") is not None:
-            col = [F(x) for x in o["observed_theta"]]
+        if ao["thetas"] is not None:
+            col = ao["thetas"]
             observed = [["theta", qrow(col)]]
-            thetas = _uniq([[t] for t in col])
-            thetas = [t[0] for t in thetas]
+            thetas = [t[0] for t in _uniq([[t] for t in col])]
         utab = [[i, [["theta", q(t)]], qrow(ex.uval(ins[i], t))] for i in range(n) for t in thetas]
         out["obs"] = {"w": o["w"], "obs_slice": o.get("obs_slice"), "caller": caller, "observed": observed, "n": n,
-                      "vals": qmat([[F(x) for x in r] for r in o["vals"]]), "utab": utab}
+                      "vals": qmat(ao["vals"]), "utab": utab}
     return out
 
 
@@ -533,7 +571,7 @@ def divisors_exact(case, arrays):
     if case.get("boundary") and arrays["border"] is not None:
         ns.append(len(arrays["border"]))
     if case.get("obs"):
-        ns.append(len(case["obs"]["ins"]))
+        ns.append(len(arrays["obs"]["ins"]))
     return all(is_pow2(n) for n in ns)
 
 
